@@ -900,7 +900,15 @@ struct ArmGuard
 // -- ops that need CopyInsertable / CopyAssignable are routed through these so that move-only
 //    flavours never instantiate them
 template <typename V>
-static bool op_copy_family (V &v, const Op &op, OpResult &res, Bool<false>) { (void) v; (void) op; res.out = "skip"; return true; }
+static bool op_copy_family (V &v, const Op &op, OpResult &res, Bool<false>)
+{
+  // element type is not copyable: only the calls that need copies are unavailable
+  (void) v;
+  static const char *const names[] = { "push_back", "emplace_back_c", "insert", "emplace_c", "insert_n", "resize_v", "assign_n" };
+  for (unsigned i = 0; i < sizeof names / sizeof names[0]; ++i)
+    if (! std::strcmp (op.name, names[i])) { res.out = "skip"; return true; }
+  return false;
+}
 
 template <typename V>
 static bool op_copy_family (V &v, const Op &op, OpResult &res, Bool<true>)
